@@ -65,6 +65,22 @@ def tree_cases(start):
     return out
 
 
+def chain3_cases(start):
+    """f3(f2(f1(a))) over {negative, square, add b, subtract b}: depth-3 view types (and compositions of three functors) in the quick tier"""
+    import itertools
+    out = []; n = start
+    for ops in itertools.product(("negative", "square", "add_b", "sub_b"), repeat=3):
+        for variant in ("view", "extract"):
+            n += 1
+            out.append(dict(id=n, op="chain3", shapes=[[2, 3], [3]], data=[[1, 2, 3, 4, 5, 6], [2, 1, 3]], args=dict(ops=list(ops)), variant=variant))
+    return out
+
+
+def chain3_extract_after_binary(case):
+    """extraction of a chain whose first or second step is a binary ufunc followed by further steps (same root as c14_extract_binary_after_view)"""
+    return case.get("op") == "chain3" and case.get("variant") == "extract" and any(o.endswith("_b") for o in case["args"]["ops"][1:]) 
+
+
 def tree_extract_over_view(case):
     """extraction (get_function_composition / get_function_operands + apply) of a binary ufunc one of whose operands is a view - either side"""
     return case.get("op") == "tree" and case.get("variant") == "extract" and (case["args"]["va"] != "id" or case["args"]["vb"] != "id")
@@ -97,6 +113,9 @@ def run(tier, seed):
         if cases:
             opslib.run_ops(ck, bins[i], cases, want="all", label=f"fn{i}", nproc=max(2, vlib.NCPU // 3),
                            describe=lambda c, k: f"functional {'*'.join(s['op'] for s in reversed(c['prog']))} [{c['variant']}]: {k}")
+    cc = chain3_cases(n); n += len(cc)
+    opslib.run_ops(ck, bins[0], cc, want="all", label="chain3", nproc=4, describe=lambda c, k: f"{'('.join(reversed(c['args']['ops']))}(a) [{c['variant']}]: {k}")
+    ck.extra["chain3_cases"] = len(cc)
     tc = tree_cases(n); n += len(tc)
     opslib.run_ops(ck, bins[0], tc, want="all", label="tree", nproc=4, describe=lambda c, k: f"{c['args']['f']}({c['args']['va']}(a), {c['args']['vb']}(b)) [{c['variant']}]: {k}")
     ck.extra["tree_cases"] = len(tc)
@@ -132,7 +151,7 @@ def run(tier, seed):
 
 def replay(rec):
     case = dict(rec["case"]); case["id"] = 1
-    if case.get("op") == "tree":
+    if case.get("op") in ("tree", "chain3"):
         return opslib.replay_ops(rec, "drv_functional", flags=("-DMAXD=2", "-DFIRST_IDX=0", "-O0"))
     if case.get("op") == "fstack":
         names = ["u1", "u2", "b", "t", "swap", "dup", "dig2", "bury2"]
